@@ -596,7 +596,10 @@ pub fn strategy(tier: Tier, flavor: Flavor) -> BoxedStrategy<FCase> {
         Flavor::Capacity => prop_oneof![6 => (1u16..15).prop_map(Work::Ms), 2 => (0u8..4).prop_map(Work::Yields), 1 => Just(Work::Panic)].boxed(),
     };
     let nkeys: u8 = if flavor == Flavor::Routing { 2 } else { 4 };
-    let dispatch = (gen::idx(nkeys), prop_oneof![5 => Just(None), 1 => (0u16..20).prop_map(Some)], prop::bool::weighted(0.25), work).prop_map(|(key, ttl_ms, port, work)| FOp::Dispatch { key, ttl_ms, port, work });
+    // routing flavour: mostly two keys (long same-key streams), now and then a third / fourth key so
+    // that a key can be waiting in the backlog while no worker is on it
+    let key = if flavor == Flavor::Routing { prop_oneof![7 => gen::idx(nkeys), 3 => gen::idx(4)].boxed() } else { gen::idx(nkeys).boxed() };
+    let dispatch = (key, prop_oneof![5 => Just(None), 1 => (0u16..20).prop_map(Some)], prop::bool::weighted(0.25), work).prop_map(|(key, ttl_ms, port, work)| FOp::Dispatch { key, ttl_ms, port, work });
     let dop = prop_oneof![10 => dispatch, 2 => (0u16..10).prop_map(FOp::Sleep), 1 => Just(FOp::Yield)];
     let cop = prop_oneof![
         3 => (0u16..15).prop_map(FOp::Sleep),
@@ -1051,7 +1054,7 @@ impl Part for C14 {
         outcome(check_c14(case, &run), &run, want_trace)
     }
     fn rule() -> &'static str {
-        "the factory generator with key-heavy streams (2 keys, many jobs), resizes while a key is in flight, kills of worker incarnations at generated times (incl. right after a completion was reported); oracle over the recorded Start/End/Build history: same-key intervals on different slots never overlap (key-persistent, sticky), per-key handling order equals submission order (key-persistent), custom hash (table with 0, pool, huge values) always lands inside the pool, round-robin windows of pool_size consecutive jobs use pool_size distinct workers (static healthy pool), no job waits in the factory queue while all workers idle (queuer, sticky), one job at a time per incarnation; non-trivial = the same key was active during a resize/replacement, a custom hash pointed outside the pool, or a full round-robin window was judged"
+        "the factory generator with key-heavy streams (mostly 2 keys, occasionally up to 4, many jobs), resizes while a key is in flight, kills of worker incarnations at generated times (incl. right after a completion was reported); oracle over the recorded Start/End/Build history: same-key intervals on different slots never overlap (key-persistent, sticky), per-key handling order equals submission order (key-persistent), custom hash (table with 0, pool, huge values) always lands inside the pool, round-robin windows of pool_size consecutive jobs use pool_size distinct workers (static healthy pool), no job waits in the factory queue while all workers idle (queuer, sticky), one job at a time per incarnation; non-trivial = the same key was active during a resize/replacement, a custom hash pointed outside the pool, or a full round-robin window was judged"
     }
 }
 
